@@ -312,10 +312,12 @@ fn reference(ctx: &Context, t: &T, f: &mut Facts) -> Result<RV, Refusal> {
                 T::Hypot(..) => (x.dims.clone(), V::Float),
                 _ => (radian(), V::Float),
             };
+            // a divisor whose value is not known exactly may be zero (`x mod sqrt(90 mod 90)`)
+            let hz = matches!(t, T::Mod(..)) && matches!(y.val, V::Float);
             Ok(RV {
                 dims,
                 val,
-                hazard: x.hazard || y.hazard,
+                hazard: x.hazard || y.hazard || hz,
                 dims_unknown: false,
             })
         }
